@@ -57,6 +57,16 @@ CLAIMS = {
         technique='symbolic execution (CrossHair/z3) of compiled render functions with a symbolic failing evaluation point and exception class; oracle on exception type/args and parsed message records',
         text='Per enumerated template the solver decides for every (failing point, exception class) that the raised exception keeps class/args, is a RenderError (or passes through unwrapped where required) and names the expected expression/line/column chain.',
         note='Trusted: CrossHair models; expected positions computed from the template text by the harness. A private BaseException subclass stands for KeyboardInterrupt/SystemExit.'),
+    'C09': dict(
+        engine='G', level='translation_validation', design_ref='DESIGN.md 4 C09',
+        technique='metamorphic differential symbolic execution (CrossHair/z3): template with METAL vs its hand-inlined METAL-free equivalent, both compiled by the real compiler, symbolic bindings',
+        text='Per enumerated (macro library, caller) pair the solver decides that use-macro/extend-macro renders exactly like the inlined element with slots filled, for all bindings in the bound.',
+        note='Trusted: CrossHair models; the inliner vlib/metal_inline.py (the METAL semantics as stated by the property).'),
+    'C10': dict(
+        engine='G', level='translation_validation', design_ref='DESIGN.md 4 C10',
+        technique='differential symbolic execution (CrossHair/z3): compiled render function with a recording translation function vs reference i18n semantics',
+        text='Per enumerated i18n template the solver decides, for all bindings, the number and order of translation calls and every argument (msgid, mapping, default, domain, context, target) through an argument-revealing translation function.',
+        note=G_NOTE),
     'C03': dict(
         engine='X+Z', level='model_checking', design_ref='DESIGN.md 4 C03',
         technique='symbolic execution (CrossHair/z3) of iter_xml/match_tag/emitters on shape-enumerated character-symbolic strings; z3 regex inclusion from the live lexer pattern',
